@@ -96,6 +96,9 @@ def call_magic(name, args):
     had = "range" in magics.__dict__
     old = magics.__dict__.get("range")
     magics.range = guarded_range
+    from mwlib.parser import expr as X
+
+    X._cache.clear()  # module-level memo keyed by the expression text: must not leak (symbolic) keys from path to path
     try:
         al = e["evaluate"].ArgumentList(args=tuple(args), expander=_Exp())
         try:
@@ -105,6 +108,7 @@ def call_magic(name, args):
         except Exception as ex:
             return {"sig": f"{name}|{type(ex).__name__}", "name": name, "args": list(args), "detail": str(ex)[:160]}
     finally:
+        X._cache.clear()
         if had:
             magics.range = old
         else:
@@ -251,7 +255,7 @@ def build(tier: str) -> CheckSpec:
                 "work bound": f"{WORK_BASE} + {WORK_PER_CHAR} * (name + argument length) for loop trip counts in magics.py and output length",
                 "template universes": "2 templates (quick) / 3 (thorough), body = two pieces of 8, every call graph incl. cycles and missing targets"},
         stubs=["expr.tokenize (regex) replaced by its token list in the '#EXPR n <op> m' cubes; expr._cache cleared per path", "templ/evaluate.pyx, nodes.pyx, node.pyx loaded from source as Python (vlib/pyxload.py)", "`range` in the magics namespace guarded by the work bound",
-               "expander stub with recursion_count/recursion_limit for ArgumentList (string arguments are not flattened)", "wikidb = None for #ifexist"],
+               "expr._cache (memo of evaluated expressions) cleared before and after every call", "expander stub with recursion_count/recursion_limit for ArgumentList (string arguments are not flattened)", "wikidb = None for #ifexist"],
         assumptions=["arguments reach the resolver as stripped strings (ArgumentList.get on str arguments)", "template universes are pinned (enumerated by the solver) and expanded outside the tracer: the text parser is regex driven"],
         outside=["templ/parser.py, scanner.py, pp.py (wikitext -> node tree): exercised concretely in the replay only", "magic_time (#time, C timelib)", "interpreter RecursionError paths",
                  "site aliases of magic words (resolved by parser.AliasMap before dispatch)"],
